@@ -159,7 +159,11 @@ package cache
 // excerptFrom: the cached entity an excerpt was computed from (definition: set by the sub-cache's makeExcerpt);
 // building an excerpt or the index data of an entity only reads it
 //@ ghost var excerptFrom map[Excerpt]CacheEntity
+// An excerpt that goes into the shared table is computed inside the critical section that stores it: computed
+// earlier, it could overwrite a newer excerpt stored by another goroutine in between.
 //@ func SubCache.makeExcerpt
+//@   opt post_unguarded
+//@   requires [cache-lock-held@locks] sync.rwheld[&recv.mu] == -1
 //@   modifies excerptFrom
 //@   defines [summarises] excerptFrom[result] == arg0
 //@ func SubCache.makeIndexData
